@@ -220,6 +220,13 @@ class Names:
 
     def member(self, kind: str = "field") -> str:
         """field / argument / input-field / variable / alias names"""
+        if kind == "field" and "names.pydantic_attr" in self.dirty:
+            # names the tree under test adds to the generated package's own BaseModel (none on the unchanged tree): as names of object fields, where a result model
+            # meets them (the general pool below spreads its names over arguments, input fields and object fields alike)
+            own = [p for p in bundled_base_model_attributes() if p not in self.used and p.lower() not in self.used]
+            if own and self.rng.random() < 0.5:
+                self.feats.add("names.pydantic_attr")
+                return self._uniq(self.rng.choice(own))
         for cls_name, pool in self.DIRTY_POOLS.items():
             if cls_name in self.dirty and self.rng.random() < 0.3:
                 free = [p for p in pool if p not in self.used and p.lower() not in self.used]
@@ -336,6 +343,11 @@ class SchemaGen:
             return rng.choice(["true", "false"])
         if t in self.spec.enums:
             self.feats.add("default.enum" if depth == 0 else "default.enum_nested")
+            if "enum.keyword_value" in self.dirty:
+                kw = [v for v in self.spec.enums[t] if keyword.iskeyword(v)]
+                if kw and rng.random() < 0.6:
+                    self.feats.add("default.enum_keyword_value")
+                    return rng.choice(kw)
             return rng.choice(self.spec.enums[t])
         if t in self.spec.scalars:
             self.feats.add("default.custom_scalar")
@@ -509,6 +521,14 @@ class SchemaGen:
             for tname in list(spec.enums) + list(spec.inputs) + list(spec.objects) + list(spec.interfaces) + list(spec.unions) + list(spec.scalars):
                 if rng.random() < 0.4:
                     spec.descriptions[tname] = self.description()
+        if "names.pydantic_attr" in self.dirty:
+            # whatever the tree under test adds to the bundled BaseModel (nothing on the unchanged tree) is also a required leaf of every object type that
+            # lacks the name: a result model meets it wherever that object is selected
+            for own in bundled_base_model_attributes()[:3]:
+                for oname, (impl, fields) in spec.objects.items():
+                    if oname not in spec.roots.values() and own not in [f.name for f in fields] and not any(own in [f.name for f in spec.interfaces[i][1]] for i in impl):
+                        fields.insert(0, Field(own, "ID!"))
+                        self.feats.add("names.pydantic_attr.bundled_on_every_object")
         if "dir.custom" in self.dirty:
             # a directive of the server's own for every executable location: the client has to send it as written and must not read a meaning into it
             spec.directives.append(CUSTOM_DIRECTIVE_SDL)
